@@ -16,6 +16,11 @@ cm_future passes through unchanged.
 Round 5: the same shift / scale identities for debiasers built from the library defaults while OTHER public constructions happen in the
 process (any construction order), through apply_location and apply (serial / parallel / failsafe), with every accepted time encoding and
 non-contiguous layouts (process_history_oracle).
+Round 6: "EVERY debiased value": a non-finite first result is no longer skipped unseen -- the guard "window samples non-empty" is decided from
+Python's own calendar (window_samples_nonempty) and under it a NaN (= a time step no window assigned, IBICUS_VERIF hook) is a failing input;
+window_sweep_oracle: every seasonal step length 1 .. 45 (even ones too) x window lengths x calendars with / without leap years, whole and broken
+years; missing_values_oracle: `apply` on numpy masked arrays (float / integer dtype, any marker under the mask, nomask) and on series with missing
+values (NaN or masked cells) for ISIMIP with impute_missing_values=True, both runs on the same state of numpy's global generator.
 """
 import datetime
 import random
@@ -162,6 +167,42 @@ def annual_slope(x, years):
     return float(scipy.stats.linregress(uy, np.array([x[years == y].mean() for y in uy])).slope)
 
 
+# ------------------------------------------------------------------ round 6: "EVERY debiased value" includes the values that are never computed
+# Quantifier covered: "... changes EVERY debiased value by exactly c" (and "scales the output by k"): a debiased value that is not finite --
+# under IBICUS_VERIF=1 a time step the window loop never assigns reads NaN (utils._verif_mark_unassigned; uninitialised memory / the zero
+# buffer otherwise) -- does not change by c whatever cm_future is.  Up to round 5 a non-finite first result was taken for the excused case
+# "empty window sample" and the case skipped without looking; now the guard of the windowed theorems is DECIDED, from Python's own calendar
+# and independently of ibicus, and where it holds a non-finite debiased value is a failing input of the shift / scale clause.
+def window_samples_nonempty(dates3, rw, length):
+    """the guard "obs / cm_hist / cm_future window samples non-empty" (DESIGN §4 C02): every series holds every day of year 1..365 (hence every
+    month), and a seasonal window is at least 3 days long or day 366 is present in every series -- then the window around ANY centre 1..366
+    the library may pick, and every month, holds values of all three series (the cm_future sample of a window holds the adjusted steps
+    themselves because step <= length is enforced by the constructor)"""
+    sets = [{d.timetuple().tm_yday for d in ds} for ds in dates3]
+    need = set(range(1, 366))
+    return all(need <= s for s in sets) and (not rw or int(length) >= 3 or all(366 in s for s in sets))
+
+
+def actual_dates(dates3, sizes):
+    """the calendar days the library works with: the explicit ones, or daily from 1950-01-01 when the time arrays are omitted"""
+    if dates3 is not None:
+        return dates3
+    return tuple(probes.dates_from(datetime.date(1950, 1, 1), int(n)) for n in sizes)
+
+
+def nonfinite_problem(label, base, out_dates, case):
+    """(text, record) for a first result with non-finite debiased values although every window sample is non-empty"""
+    b = np.asarray(base, dtype=float)
+    bad = np.argwhere(~np.isfinite(b))
+    steps = sorted({int(i[0]) for i in bad})
+    days = [str(out_dates[i]) for i in steps[:6]] if out_dates is not None and len(out_dates) == b.shape[0] else []
+    return (f"{label}: {len(steps)} of {b.shape[0]} time steps of the debiased series are not finite (a NaN is a time step that no window ever "
+            f"assigned, or the mean of nothing) although every obs / cm_hist / cm_future window sample is non-empty: steps {steps[:6]}"
+            f"{' = ' + ', '.join(days) if days else ''}{' ...' if len(steps) > 6 else ''}; adding c to (scaling by k) cm_future cannot change these debiased "
+            f"values by c (scale them by k)",
+            {**case, "what": "nonfinite-debiased-value", "nonfinite_steps": steps[:40], "nonfinite_dates": days, "n_nonfinite_steps": len(steps)})
+
+
 # ------------------------------------------------------------------ the oracle
 def oracle(rng, n_cases, res, problems):
     cfs = oracle_configs()
@@ -230,7 +271,15 @@ def oracle(rng, n_cases, res, problems):
             problems.append((f"{name}: {type(ex).__name__} on well-formed input: {str(ex)[:120]}", {**case, "what": "exception"}))
             continue
         scale = float(max(np.abs(o).max(), np.abs(h).max(), np.abs(f).max()))
+        if not isinstance(base, np.ndarray):
+            problems.append((f"{name}: apply_location returns {type(base).__name__} instead of an array", {**case, "what": "exception"}))
+            continue
         if not np.all(np.isfinite(base)):
+            used = dates_used if dates_used is not None else explicit
+            if base.ndim == 1 and window_samples_nonempty(used, rw, w["running_window_length"]):
+                # every window sample is non-empty (decided above from the calendar): "every debiased value" includes this one
+                problems.append(nonfinite_problem(name, base, used[0] if name.startswith("DeltaChange") else used[2], case))
+                continue
             # an empty window sample (mean of nothing): outside the guards of the theorems, not a statement of C02
             res.extra["skipped_nonfinite"] = res.extra.get("skipped_nonfinite", 0) + 1
             continue
@@ -530,6 +579,10 @@ def apply_oracle(rng, n_cases, res, problems):
         n_before = len(problems)
         dtype_bad = not np.issubdtype(base.dtype, np.floating)  # reported below unless the identities themselves already fail
         if not np.all(np.isfinite(base)):
+            used = actual_dates((dO, dH, dF) if times else None, (n, n, n))
+            if base.ndim == 3 and window_samples_nonempty(used, rw, w["running_window_length"]):  # round 6: see window_samples_nonempty
+                problems.append(nonfinite_problem(f"{name} via apply, dtypes {dts}", base, used[0] if name.startswith("DeltaChange") else used[2], case))
+                continue
             res.extra["skipped_nonfinite"] = res.extra.get("skipped_nonfinite", 0) + 1
             continue
         if kind == "add":
@@ -839,6 +892,11 @@ def process_history_oracle(rng, n_cases, res, problems):
                              {**case, "what": "exception"}))
             continue
         if not np.all(np.isfinite(base)):
+            used = actual_dates(None if enc == "inferred" else (dO, dH, dF), (O.shape[0], H.shape[0], F.shape[0]))
+            if window_samples_nonempty(used, bool(getattr(deb, "running_window_mode", False)), getattr(deb, "running_window_length", 3)):
+                # round 6: every window sample is non-empty (see window_samples_nonempty), "every debiased value" includes this one
+                problems.append(nonfinite_problem(f"{label} via {via}", base, used[0] if cls_name == "DeltaChange" else used[2], case))
+                continue
             res.extra["skipped_nonfinite"] = res.extra.get("skipped_nonfinite", 0) + 1
             continue
         base = np.array(base, dtype=float)
@@ -884,6 +942,353 @@ def process_history_oracle(rng, n_cases, res, problems):
                                  f"(max deviation {dev:.3g} > tol {tol:.3g})",
                                  {**case, "what": "process-history", "change": ch, "second_call_on_the_same_object": same, "index": [int(x) for x in i]}))
                 break
+
+
+# ------------------------------------------------------------------ round 6: every seasonal window geometry on every calendar
+# Quantifier covered: "with and without seasonal ... running windows" x "for all input series (... over many years)" x "EVERY debiased value".
+# The step length of the seasonal window is ANY admissible integer (1 .. 45 here, even ones included: the constructor moves them to the next
+# odd number), the window length anything from the step length up, and the calendar of each series any run of years: with leap years, without
+# a single one (2097-2103, 2021-2023, 1897-1903: the largest day of year is then 365, not 366), beginning on a 1 January or in the middle of a
+# year, ending with a complete or a broken year.  Which days of the year a window centre adjusts is integer arithmetic on (first day of year,
+# last day of year, step length): a slip there leaves days unassigned for SOME residues of 366 or 365 modulo the step length only -- the fixed
+# step lengths {1, 7, 15, 31} of the main oracle meet a few of the residues.  Judged: the first result is finite at every step (the guard is
+# decided by window_samples_nonempty) and out(F + c) - out(F) = c  /  out(k F) = k out(F)  at every step, tolerances of the main oracle.
+SWEEP_CONFIGS = ["LinearScaling/additive", "QuantileDeltaMapping/absolute", "ISIMIP/additive", "DeltaChange/additive", "ECDFM",
+                 "LinearScaling/multiplicative", "CDFt", "ScaledDistributionMapping/absolute", "QuantileMapping/additive-parametric",
+                 "DeltaChange/multiplicative", "QuantileMapping/additive-nonparametric", "QuantileMapping/multiplicative-parametric",
+                 "QuantileDeltaMapping/absolute", "CDFt"]  # twice: the two classes with multi-year windows on top of the seasonal ones
+NO_LEAP_RUNS = [(2097, 2103), (2021, 2023), (1897, 1903), (2101, 2103), (2022, 2023)]  # runs of calendar years without a 29 February
+
+
+def sweep_calendar(rng, kind, ny):
+    """daily dates of one series: `ny` years (2 .. 8) of the given kind, at least 365 consecutive days"""
+    if kind.startswith("no-leap"):
+        if kind != "no-leap":
+            ny = max(ny, 3)  # a series that begins in the middle of a year still holds every day of the year
+        a, b = rng.choice([r for r in NO_LEAP_RUNS if r[1] - r[0] + 1 >= min(ny, 3)])
+        ny = min(ny, b - a + 1)
+        first = rng.randint(a, b - ny + 1)
+        if kind == "no-leap":
+            return probes.dates_from(datetime.date(first, 1, 1), 365 * ny - rng.choice([0, 0, rng.randint(1, 200)]))
+        off = rng.randint(1, 364)  # begins in the middle of a year, ends inside the run
+        return probes.dates_from(datetime.date(first, 1, 1) + datetime.timedelta(days=off), 365 * ny - off - rng.choice([0, rng.randint(0, 100)]))
+    leap = rng.choice([1960, 1984, 2000, 2024, 2048, 2072, 2096])
+    first = leap - rng.randint(0, ny - 1)  # the leap year is one of the ny years
+    if kind == "leap":
+        return probes.dates_from(datetime.date(first, 1, 1), 365 * ny + rng.choice([1, 1, 0, rng.randint(2, 30)]))
+    off = rng.randint(1, 364)
+    return probes.dates_from(datetime.date(first, 1, 1) + datetime.timedelta(days=off), 365 * ny + rng.randint(0, 30))
+
+
+def window_sweep_oracle(rng, n_cases, res, problems):
+    """see the comment block above; every case records the configuration, the window geometry and the three calendars"""
+    cfs = oracle_configs()
+    steps = list(range(1, 46))
+    rng.shuffle(steps)
+    n_yw = 0
+    stats = res.extra.setdefault("window_sweep", {"cases": 0, "step_lengths": [], "calendars_without_leap_year": 0})
+    samples = res.extra.setdefault("oracle_samples", [])
+    for k in range(n_cases):
+        name = SWEEP_CONFIGS[(k + C.seed()) % len(SWEEP_CONFIGS)]
+        kind, mk = cfs[name]
+        nprs = np.random.RandomState(rng.randint(0, 2**31 - 1))
+        S = steps[k % len(steps)]
+        isi = name.startswith("ISIMIP")
+        if isi and S < 7:
+            S += 8  # a step of 1 day means 366 windows of ISIMIP's eight steps
+        S_eff = S + (S % 2 == 0)  # what the constructor makes of an even step length
+        L = max(3, S_eff + rng.choice([0, 0, 2, 10, 30, 60]))
+        w = dict(running_window_mode=True, running_window_length=L, running_window_step_length=S)
+        # the series whose calendar the windows are dealt out on (cm_future; obs for DeltaChange) takes the calendar kinds in turn
+        main_kind = ["leap", "no-leap", "leap-midyear", "no-leap-midyear"][(k // 2) % 4] if k % 2 == 0 else rng.choice(["leap", "no-leap", "leap-midyear", "no-leap-midyear"])
+        kinds = [rng.choice(["leap", "leap", "no-leap", "leap-midyear"]) for _ in range(3)]
+        kinds[0 if name.startswith("DeltaChange") else 2] = main_kind
+        has_year_windows = name in ("CDFt", "QuantileDeltaMapping/absolute")
+        # (multi-year windows: up to 8 years of cm_future, so that the year-window step lengths 1 .. 5 meet every residue; runs without a leap
+        # year are at most 7 years long)
+        nys = [rng.randint(2, 4), rng.randint(2, 4), rng.randint(2, 3 if isi else 8 if has_year_windows else 5)]
+        dates = tuple(sweep_calendar(rng, kd, ny) for kd, ny in zip(kinds, nys))
+        o, h, f = probes.tas_like(nprs, dates[0], 283, 3), probes.tas_like(nprs, dates[1], 285, 4), probes.tas_like(nprs, dates[2], 288, 4)
+        trend = rng.choice(["stationary", "trend"])
+        if trend == "trend":
+            f = f + rng.choice([-1, 1]) * rng.choice([0.5, 2.0, 6.0]) * np.arange(f.size) / 365.0
+        if kind == "mult":
+            o, h, f = (np.exp((x - 283.0) / 6.0) * 3.0 for x in (o, h, f))
+        y, e = {}, {}
+        if name in ("CDFt", "QuantileDeltaMapping/absolute"):
+            yw = rng.random() < 0.75
+            y = dict(running_window_mode_over_years_of_cm_future=yw)
+            if yw:  # the same integer arithmetic on (first year, last year, step length in years); even values are moved to the next odd number
+                Sy = [3, 5, 4, 2, 3, 5, 1][n_yw % 7]  # in turn; mostly more years than one step, so that there is a last window to get wrong
+                n_yw += 1
+                y.update(running_window_over_years_of_cm_future_length=Sy + (Sy % 2 == 0) + rng.choice([0, 2, 4]),
+                         running_window_over_years_of_cm_future_step_length=Sy)
+        if isi:
+            var = sorted(ISIMIP_ADDITIVE_VARIABLES)[k % 3]
+            e = dict(var=var, detrending=rng.random() < 0.7)
+            off, fac = ISIMIP_ADDITIVE_VARIABLES[var]
+            o, h, f = (off + fac * x for x in (o, h, f))
+        case = {"config": "sweep/" + name, "oracle": "window-sweep", "what": "window-sweep", "window": w, "years": y, "extra": e, "trend": trend,
+                "calendars": {s: {"kind": kd, "first_day": str(d[0]), "last_day": str(d[-1]), "n_days": int(d.size),
+                                  "largest_day_of_year": max(x.timetuple().tm_yday for x in d)}
+                              for s, kd, d in zip(("obs", "cm_hist", "cm_future"), kinds, dates)},
+                "sizes": [int(o.size), int(h.size), int(f.size)], "case": k, "seed": C.seed()}
+        stats["cases"] += 1
+        stats["step_lengths"] = sorted(set(stats["step_lengths"]) | {S})
+        stats["calendars_without_leap_year"] += int(main_kind.startswith("no-leap"))
+        def mk_quiet():
+            with warnings.catch_warnings():  # an even step length is moved to the next odd number with a warning
+                warnings.simplefilter("ignore")
+                return mk(w, y, e)
+
+        try:
+            deb = mk_quiet()
+            base = run_loc(deb, o, h, f, dates)
+        except Exception as ex:  # noqa: BLE001
+            problems.append((f"{name} (window length {L}, step length {S}): {type(ex).__name__} on well-formed input: {str(ex)[:120]}", {**case, "what": "exception"}))
+            continue
+        out_dates = dates[0] if name.startswith("DeltaChange") else dates[2]
+        if not (isinstance(base, np.ndarray) and base.shape == out_dates.shape):
+            problems.append((f"{name} (window length {L}, step length {S}): apply_location returns {type(base).__name__} of shape "
+                             f"{getattr(base, 'shape', None)} instead of {out_dates.shape}", {**case, "what": "exception"}))
+            continue
+        if not np.all(np.isfinite(base)):
+            if window_samples_nonempty(dates, True, L):
+                problems.append(nonfinite_problem(f"{name} (window length {L}, step length {S}, largest day of year of the adjusted series "
+                                                  f"{max(x.timetuple().tm_yday for x in out_dates)})", base, out_dates, case))
+            else:
+                res.extra["skipped_nonfinite"] = res.extra.get("skipped_nonfinite", 0) + 1
+            continue
+        scale = float(max(np.abs(o).max(), np.abs(h).max(), np.abs(f).max()))
+        sd_f = float(np.std(f))
+        ch = (rng.choice(SHIFTS + [1e-2 * sd_f, -10.0 * sd_f]) if kind == "add" else rng.choice(FACTORS + [1.0 + 1e-3, 1.0 - 3e-5]))
+        try:
+            out = run_loc(deb if k % 2 else mk_quiet(), o, h, f + ch if kind == "add" else f * ch, dates)
+        except Exception as ex:  # noqa: BLE001
+            problems.append((f"{name} (window length {L}, step length {S}): the run on the changed cm_future raises {type(ex).__name__}: {str(ex)[:120]}",
+                             {**case, "what": "exception", "change": ch}))
+            continue
+        if not (isinstance(out, np.ndarray) and out.shape == base.shape):
+            problems.append((f"{name} (window length {L}, step length {S}): the run on the changed cm_future returns {type(out).__name__} of shape "
+                             f"{getattr(out, 'shape', None)}", {**case, "what": "exception", "change": ch}))
+            continue
+        if kind == "add":
+            devs, tol = np.abs(out - base - ch), shift_tol(ch, scale)
+        else:
+            devs, tol = np.abs(out - ch * base), scale_tol(ch, float(np.abs(base).max()))
+        dev = float(np.max(devs))
+        res.count(("window-sweep", name, S, L, main_kind, tuple(sorted(y.items())), trend), True)
+        if len([x for x in samples if x.get("what") == "window-sweep"]) < 1:
+            samples.insert(0, {**case, "change": ch, "max_dev": dev, "tol": tol})
+        if not dev <= tol:
+            i = int(np.argmax(np.where(np.isnan(devs), np.inf, devs)))
+            said = (f"adding c={ch} to cm_future changes the output by {float(out[i] - base[i])!r}" if kind == "add"
+                    else f"scaling cm_future by k={ch} scales the output by {float(out[i] / base[i])!r}")
+            problems.append((f"{name} (window length {L}, step length {S}): {said} at step {i} = {out_dates[i]} (max deviation {dev:.3g} > tol {tol:.3g})",
+                             {**case, "change": ch, "index": i}))
+
+
+# ------------------------------------------------------------------ round 6: series with missing values, series in a masked array
+# Quantifier covered: "for all input series" as the PUBLIC entry point `Debiaser.apply` accepts them (its input check has a branch for each form):
+#  * numpy masked arrays without a single masked cell ("converted to a normal numpy array"), float or integer dtype, mask = nomask or a full
+#    boolean array -- every configuration of the list below;
+#  * series WITH missing values -- NaN in a plain float array, or masked cells of a float / integer masked array ("the masked values are filled
+#    in by nan-values") -- for the configuration that documents support for them: ISIMIP with impute_missing_values=True (step 2) on the additive
+#    variables.  What is stored UNDER the mask is not a value of the series (the usual markers -999 / 0 / the fill value / NaN / stale data).
+# "Adding c to every value of cm_future" is adding c to every valid value: `cm_future + c` in numpy's masked arithmetic (the marker under the
+# mask stays), or a masked array of `data + c` with the same mask (the marker moves too) -- both are the series shifted by c.  Step 2 draws from
+# numpy's global generator: both runs start from the same generator state (the same draws, like the same oracle decisions in both runs of the
+# theorem), the state is restored afterwards.  Judged: out(F + c) - out(F) = c at every step, valid or imputed (the imputed value is the inverse
+# ecdf of the valid values at the same probabilities, and every iecdf method is shift-equivariant: Lemmas/StatsAffine), tolerance of the main oracle.
+MISSING_CONFIGS = ["ISIMIP/impute", "LinearScaling/additive", "ISIMIP/impute", "ECDFM", "ISIMIP/impute", "QuantileMapping/additive-parametric",
+                   "ISIMIP/impute", "DeltaChange/additive", "ISIMIP/impute", "ScaledDistributionMapping/absolute", "ISIMIP/impute",
+                   "LinearScaling/multiplicative", "ISIMIP/additive", "DeltaChange/multiplicative"]
+MARKERS_FLOAT = [-999.0, 0.0, "fill_value", "stale", "nan", 9.96921e36]
+MARKERS_INT = [-999, 0, "fill_value", "stale", -32768]
+
+
+def missing_values_oracle(rng, n_cases, res, problems):
+    """see the comment block above; every case records form, dtype, marker, the masked cells and how the shifted series was formed"""
+    from harness import gridprobes as G
+    from ibicus.debias import ISIMIP
+
+    cfs = oracle_configs()
+    stats = res.extra.setdefault("missing_values", {"cases": 0, "with_missing_values": 0, "masked_arrays": 0, "integer_masked_arrays": 0})
+    samples = res.extra.setdefault("oracle_samples", [])
+    np_state = np.random.get_state()
+    try:
+        for k in range(n_cases):
+            name = MISSING_CONFIGS[(k + C.seed()) % len(MISSING_CONFIGS)]
+            impute = name == "ISIMIP/impute"
+            kind = "add" if name.startswith("ISIMIP") else cfs[name][0]
+            nprs = np.random.RandomState(rng.randint(0, 2**31 - 1))
+            ncell = rng.choice([1, 1, 2])
+            y0 = rng.randint(1955, 2060)
+            dO = probes.dates_from(datetime.date(y0, 1, 1), 365 * rng.randint(2, 4) + rng.randint(0, 30))
+            dH = probes.dates_from(datetime.date(y0, 1, 1), 365 * rng.randint(2, 4) + rng.randint(0, 30))
+            dF = probes.dates_from(datetime.date(y0 + 40, 1, 1), 365 * rng.randint(2, 4) + rng.randint(0, 30))
+            if rng.random() < 0.3:
+                dO = dH = probes.dates_from(datetime.date(y0, 1, 1), dF.size)  # equal lengths: a mix-up of the series is then not a shape error
+            rw = rng.random() < 0.35
+            w = dict(running_window_mode=rw, running_window_length=rng.choice([31, 61]), running_window_step_length=rng.choice([15, 31]))
+            var, off, fac = "tas", 0.0, 1.0
+            if name.startswith("ISIMIP"):
+                var = sorted(ISIMIP_ADDITIVE_VARIABLES)[(k // 2) % 3]
+                off, fac = ISIMIP_ADDITIVE_VARIABLES[var]
+            ikw = dict(impute_missing_values=True) if impute else {}
+            if name.startswith("ISIMIP") and rng.random() < 0.2:
+                ikw["detrending"] = False
+            rate = rng.choice([0.0, rng.choice([-1, 1]) * rng.choice([0.5, 2.0, 6.0])])
+            cols = []
+            for _ in range(ncell):
+                o, h, f = probes.tas_like(nprs, dO, 283, 3), probes.tas_like(nprs, dH, 285, 4), probes.tas_like(nprs, dF, 288, 4)
+                f = f + rate * np.arange(dF.size) / 365.0
+                if kind == "mult":
+                    o, h, f = (np.exp((x - 283.0) / 6.0) * 40.0 + 1.0 for x in (o, h, f))
+                else:
+                    o, h, f = (off + fac * x for x in (o, h, f))
+                cols.append((o, h, f))
+            arrs = [np.stack([c_[i] for c_ in cols], axis=1).reshape(-1, 1, ncell) for i in range(3)]
+            # the forms in turn (every quick run meets each of them with missing values), dtype / marker / mask / shifted form at random
+            form = ["masked-int", "masked-float", "nan", "masked-int"][(k // 2) % 4] if impute else rng.choice(["masked-float", "masked-int", "masked-int"])
+            int_dtype = rng.choice(["int64", "int32"])
+            packing = 1.0
+            if form == "masked-int":  # packed data: whole numbers of 1/100 of the unit (psl: whole Pa), like data read without unpacking
+                packing = 1.0 if var == "psl" else 100.0
+                arrs = [np.round(a * packing) for a in arrs]
+            # ---- the missing cells: cm_future always (when the configuration supports them), obs / cm_hist in some cases
+            masks = [np.zeros(a.shape, dtype=bool) for a in arrs]
+            if impute:
+                for i in (0, 1, 2):
+                    if i == 2 or rng.random() < 0.4:
+                        for cell in range(ncell):
+                            nt = arrs[i].shape[0]
+                            if rng.random() < 0.8:
+                                masks[i][nprs.choice(nt, size=rng.randint(3, 40), replace=False), 0, cell] = True
+                            if rng.random() < 0.4:
+                                a0 = rng.randint(0, nt - 21)
+                                masks[i][a0:a0 + rng.randint(5, 20), 0, cell] = True
+            marker = rng.choice(MARKERS_INT if form == "masked-int" else MARKERS_FLOAT)
+            mask_kind = rng.choice(["array", "array", "nomask"])  # only where nothing is masked: np.ma.nomask instead of a boolean array
+
+            def build(a, m, dtype_name):
+                """the series as the caller holds it: plain array with NaN, or masked array with the marker under the mask"""
+                if form == "nan":
+                    x = a.copy()
+                    x[m] = np.nan
+                    return x
+                x = a.astype(dtype_name)
+                if m.any():
+                    if marker == "nan":
+                        x[m] = np.nan
+                    elif marker not in ("fill_value", "stale"):
+                        x[m] = marker
+                ma = np.ma.masked_array(x, mask=(m.copy() if (m.any() or mask_kind == "array") else np.ma.nomask))
+                if marker == "fill_value" and m.any():
+                    ma = np.ma.masked_array(ma.filled(), mask=m.copy())  # numpy's default fill value (1e20 / 999999) stored under the mask
+                return ma
+
+            dt = int_dtype if form == "masked-int" else "float64"
+            obs, hist, fut = (build(a, m, dt) for a, m in zip(arrs, masks))
+            times = dict(time_obs=dO, time_cm_hist=dH, time_cm_future=dF) if rng.random() < 0.6 else {}
+            valid_f = ~masks[2]
+            scale = float(max(np.abs(a[~m]).max() for a, m in zip(arrs, masks)))
+            shifted_as = rng.choice(["cm_future + c (numpy masked arithmetic)", "masked_array(data + c, mask)"]) if form != "nan" else "cm_future + c"
+            if kind == "add":
+                cs = [3.0, -3.0, 0.5, -0.5, 2.25, 1e3, -1e3]
+                ch = rng.choice(cs) * (packing if rng.random() < 0.5 else 1.0)  # whole or fractional in the packed unit: exact in floating point
+            else:
+                ch = rng.choice([0.5, 2.0, 10.0, 0.25, 250.0])
+            op = (lambda a_: a_ + ch) if kind == "add" else (lambda a_: a_ * ch)
+            if shifted_as.startswith("masked_array"):
+                fut2 = np.ma.masked_array(op(np.asarray(fut.data)), mask=(np.ma.getmaskarray(fut).copy() if masks[2].any() or mask_kind == "array" else np.ma.nomask))
+            else:
+                fut2 = op(fut)
+            n_missing = [int(m.sum()) for m in masks]
+            case = {"config": "missing/" + name, "oracle": "missing-values", "what": "missing-values", "via": "apply", "grid": [1, ncell],
+                    "variable": var, "options": {**ikw, **w}, "form": form, "dtype": dt, "marker_under_the_mask": marker if form != "nan" else None,
+                    "mask": None if form == "nan" else ("boolean array" if (mask_kind == "array" or any(n_missing)) else "nomask"),
+                    "n_missing": {"obs": n_missing[0], "cm_hist": n_missing[1], "cm_future": n_missing[2]},
+                    "missing_steps_cm_future": [int(i) for i in np.argwhere(masks[2][:, 0, 0]).ravel()[:60]],
+                    "shifted_series_formed_as": shifted_as, "change": ch, "explicit_time": bool(times), "rate_per_year": rate * fac,
+                    "sizes": [int(dO.size), int(dH.size), int(dF.size)], "startF": str(dF[0]), "np_random_seed_before_each_call": 1000 + k,
+                    "case": k, "seed": C.seed()}
+            stats["cases"] += 1
+            stats["with_missing_values"] += int(any(n_missing))
+            stats["masked_arrays"] += int(form != "nan")
+            stats["integer_masked_arrays"] += int(form == "masked-int")
+
+            def make():
+                with warnings.catch_warnings():
+                    warnings.simplefilter("ignore")
+                    if name.startswith("ISIMIP"):
+                        return ISIMIP.from_variable(var, **ikw, **w)
+                    return cfs[name][1](w, {}, {})
+
+            def call(f_in):
+                np.random.seed(1000 + k)
+                try:
+                    with np.errstate(all="ignore"):
+                        return G.run_apply(make(), obs, hist, f_in, **times)
+                except Exception as ex:  # noqa: BLE001  (the construction)
+                    return ("error", type(ex).__name__, G.safe_str(ex))
+
+            r0 = call(fut)
+            if r0[0] == "error":
+                problems.append((f"{name} via apply, {form} ({dt}) input with {n_missing[2]} missing values in cm_future: {r0[1]}: {r0[2][:120]}",
+                                 {**case, "what": "exception"}))
+                continue
+            base = r0[1]
+            if not (isinstance(base, np.ndarray) and base.shape == ((obs if name.startswith("DeltaChange") else fut).shape)):
+                problems.append((f"{name} via apply, {form} ({dt}) input: returns {type(base).__name__} of shape {getattr(base, 'shape', None)}",
+                                 {**case, "what": "exception"}))
+                continue
+            base = np.ma.getdata(base)
+            if not (np.issubdtype(base.dtype, np.floating) and np.all(np.isfinite(base))):
+                used = actual_dates((dO, dH, dF) if times else None, (dO.size, dH.size, dF.size))
+                if np.issubdtype(base.dtype, np.floating) and not window_samples_nonempty(used, rw, w["running_window_length"]):
+                    res.extra["skipped_nonfinite"] = res.extra.get("skipped_nonfinite", 0) + 1
+                    continue
+                if not np.issubdtype(base.dtype, np.floating):
+                    problems.append((f"{name}: apply returns dtype {base.dtype} for a {form} ({dt}) cm_future (debiased values are truncated to integers)",
+                                     {**case, "what": "apply-result-dtype"}))
+                    continue
+                # the missing values are imputed (every window holds dozens of valid values), the complete series are complete
+                problems.append(nonfinite_problem(f"{name} via apply, {form} ({dt}) input with {n_missing} missing values in obs / cm_hist / cm_future",
+                                                  base, used[0] if name.startswith("DeltaChange") else used[2], case))
+                continue
+            r1 = call(fut2)
+            if r1[0] == "error":
+                problems.append((f"{name} via apply, {form} ({dt}) input: the run on the changed cm_future raises {r1[1]}: {r1[2][:120]}",
+                                 {**case, "what": "exception"}))
+                continue
+            out = np.ma.getdata(r1[1])
+            if not (isinstance(out, np.ndarray) and out.shape == base.shape):
+                problems.append((f"{name} via apply, {form} ({dt}) input: the run on the changed cm_future returns {type(out).__name__} of shape "
+                                 f"{getattr(out, 'shape', None)}", {**case, "what": "exception"}))
+                continue
+            out = out.astype(float)
+            if kind == "add":
+                devs, tol = np.abs(out - base - ch), shift_tol(ch, scale)
+            else:
+                devs, tol = np.abs(out - ch * base), scale_tol(ch, float(np.abs(base).max()))
+            dev = float(np.max(devs))
+            res.count(("missing", name, var, form, dt, str(marker), rw, shifted_as[:12], bool(times), tuple(n > 0 for n in n_missing), ch), True)
+            if any(n_missing) and len([x for x in samples if x.get("what") == "missing-values"]) < 1:
+                samples.insert(0, {**case, "max_dev": dev, "tol": tol})
+            if not dev <= tol:
+                i = np.unravel_index(int(np.argmax(np.where(np.isnan(devs), np.inf, devs))), devs.shape)
+                same_shape = devs.shape == valid_f.shape
+                dv = float(np.max(devs[valid_f])) if same_shape and valid_f.any() else dev
+                di = float(np.max(devs[~valid_f])) if same_shape and (~valid_f).any() else 0.0
+                said = (f"adding c={ch} to every valid value of cm_future changes the output by {float(out[i] - base[i])!r}" if kind == "add"
+                        else f"scaling cm_future by k={ch} scales the output by {float(out[i] / base[i])!r}")
+                problems.append((f"{name}({var}{', ' + ', '.join(f'{a}={b}' for a, b in ikw.items()) if ikw else ''}) via apply, cm_future a {form} array "
+                                 f"({dt}, {n_missing[2]} missing values{'' if form == 'nan' else ', ' + repr(marker) + ' under the mask'}), shifted series = "
+                                 f"{shifted_as}: {said} at index {[int(x) for x in i]} (max deviation {dev:.3g} > tol {tol:.3g}; at the valid steps "
+                                 f"{dv:.3g}, at the missing steps {di:.3g})", {**case, "index": [int(x) for x in i]}))
+    finally:
+        np.random.set_state(np_state)
 
 
 # ------------------------------------------------------------------ round 4: ties of the new model definitions
@@ -993,6 +1398,11 @@ def ecdfm_beta_note(rng):
     return {"max_abs_deviation_by_shift": out, "note": "numerical MLE (4-parameter beta): approximate, not part of the verdict"}
 
 
+# round 6: oracle tag (the `oracle` field of a recorded case) -> (function, offset of its own PRNG stream, budget from the main oracle's budget)
+ROUND6_ORACLES = {"window-sweep": (window_sweep_oracle, 6, lambda n_or: n_or // 2),
+                  "missing-values": (missing_values_oracle, 7, lambda n_or: n_or // 3)}
+
+
 def run(tier, res, force_search=False):
     rng = random.Random(C.seed() * 104729 + 2)
     res.rule = ("cases = (configuration, window mode, year-window mode, ecdf/iecdf pair, shift c / factor k, stationary|trending, explicit|inferred "
@@ -1028,6 +1438,17 @@ def run(tier, res, force_search=False):
         "scale identity after, between and before other public constructions (the same class for every supported variable, deviating options, other "
         "classes, for_precipitation, plain constructors, rejected constructions, short uses), via apply_location and apply (serial / parallel, "
         "failsafe on / off), every accepted time encoding, contiguous and non-contiguous layouts; what the other calls raise is counted, never judged",
+        "round 6 -- 'every debiased value': a non-finite debiased value is judged (not skipped) whenever every obs / cm_hist / cm_future window sample "
+        "is non-empty, which is decided from Python's own calendar (every series holds every day of year 1..365 and the window is >= 3 days long or day "
+        "366 is present everywhere); seasonal step lengths 1 .. 45 (even ones are moved to the next odd number by the constructor), window lengths from "
+        "the step length up (>= 3), calendars with and without leap years, beginning / ending inside a year (window_sweep_oracle)",
+        "round 6 -- input forms of the public `apply`: numpy masked arrays (float64 / int64 / int32; nomask or boolean mask; -999 / 0 / fill value / NaN / "
+        "stale data under the mask) without masked cells for the configurations with a transfer function continuous in the data, and series with "
+        "missing values (NaN or masked cells in cm_future, sometimes in obs / cm_hist; 3 .. 60 per location, scattered or a run of days) for the one "
+        "configuration that documents support for them, ISIMIP (tas / psl / rlds) with impute_missing_values=True; 'adding c to every value' = to every "
+        "valid value (`cm_future + c` in masked arithmetic, or a masked array of data + c); step 2 draws from numpy's global generator: both runs start "
+        "from the same generator state (runtime-only: the theorem passes the same draws to both runs), the state is restored afterwards; integer data "
+        "are whole hundredths of the unit and the shifts are whole or k/4, so that cm_future + c is exact",
         "RUNTIME-ONLY clauses (decided by the oracle on the real code, no theorem): (1) two calls on one debiaser object return distinct arrays and the "
         "first result is not modified -- object identity / buffer reuse is numpy + Python object state; the model's window functions are pure "
         "functions of their arguments, which is the specification the oracle ties the code to (state and purity as such: C12); (2) `apply` returns a "
@@ -1077,6 +1498,13 @@ def run(tier, res, force_search=False):
     apply_oracle(rng, (2 * n_or) // 3, res, problems)
     # own stream: the cases above are the same with and without this oracle
     process_history_oracle(random.Random(C.seed() * 104729 + 5), (2 * n_or) // 3, res, problems)
+    # round 6, own streams again: every window step length on every calendar; series with missing values / in masked arrays
+    import time
+
+    for tag, (fn, stream, n) in ROUND6_ORACLES.items():
+        t0 = time.time()
+        fn(random.Random(C.seed() * 104729 + stream), n(n_or), res, problems)
+        res.extra.setdefault("round6_oracle_seconds", {})[tag] = round(time.time() - t0, 2)
     if not quick:
         res.extra["ecdfm_default_beta_fit"] = ecdfm_beta_note(rng)
 
@@ -1106,6 +1534,15 @@ def replay(data):
         print("replay: no failing input recorded (broken proof obligation / correspondence):", data.get("broken"))
         return 1
     os.environ["VERIF_SEED"] = str(fi.get("seed", 0))
+    if fi.get("oracle") in ROUND6_ORACLES:
+        # a case of one of the round-6 oracles: cases 0 .. case of its own stream (nothing else of the check is needed to regenerate the input)
+        fn, stream, _ = ROUND6_ORACLES[fi["oracle"]]
+        res, problems = C.Result(PROP, "quick"), []
+        fn(random.Random(C.seed() * 104729 + stream), int(fi.get("case", 0)) + 1, res, problems)
+        hit = [p for p, c in problems if c.get("case") == fi.get("case")]
+        for p in hit:
+            print("REPRODUCED:", p[:400])
+        return 1 if hit else 0
     if str(fi.get("config", "")).startswith("history/"):
         # a recorded call sequence of process_history_oracle: its cases 0 .. case from its own stream reproduce every public call this
         # oracle made before the judged one (the full re-run below follows if other parts of the check were needed for it to manifest)
